@@ -18,7 +18,8 @@ RULE = ("Hypothesis draws an HPD system: A = Q diag(lam) Q^H (real/complex; spec
         "tol(1+|r0|/|b|), one step fewer => not below, history finite); (c) zero rhs => exactly zero; (d) scaling by 2^j is "
         "bitwise linear; (e) joint solve == per-column solves at fixed k; (f) converged answer independent of the "
         "preconditioner; also through inv(A, CG(...)) @ b. Non-trivial: truncated run (k < n), preconditioned, non-zero x0, "
-        "multi-column with spread norms, or complex.")
+        "multi-column with spread norms, or complex. Right-hand sides are dense, unit vectors, or sparse with rows that are "
+        "exactly zero in every column; after every call the caller's b and x0 must be bit-identical.")
 ASSUMPTIONS = [
     "optimality is only judged where floating-point CG tracks exact arithmetic (calibrated regime above), at 1e-6 relative A-norm error",
     "stopping threshold judged with a 1% borderline band plus c*kappa*eps; borderline cases are counted inconclusive",
@@ -48,7 +49,8 @@ def cases(draw, tier):
             "x0": draw(st.sampled_from(["zero", "zero", "drawn", "none"])),
             "P": draw(st.sampled_from(["none", "none", "jacobi", "spd", "nystrom"])),
             "tol_exp": draw(st.integers(-12, -1)), "max_iters": draw(st.integers(0, 2 * n)),
-            "zero_col": draw(st.booleans()) and nrhs >= 2}
+            "zero_col": draw(st.booleans()) and nrhs >= 2,
+            "rhs_kind": draw(st.sampled_from(["dense", "dense", "dense", "unit", "zero_rows"]))}
     # single precision (float32 / complex64) for the sub-checks whose tolerances scale with eps
     case["single"] = sub in ("stopping", "zero_rhs", "via_inv", "scaling") and draw(st.integers(1, 4)) == 1
     if case["single"]:
@@ -82,6 +84,15 @@ def build_system(case):
     rng = np.random.default_rng(seed + 1)
     k = max(case["nrhs"], 1)
     B = rng.standard_normal((n, k)) + (1j * rng.standard_normal((n, k)) if cplx else 0)
+    rk = case.get("rhs_kind", "dense")
+    if rk == "unit":  # columns are unit vectors: every other row is exactly zero in all columns
+        B = np.zeros_like(B)
+        for j in range(k):
+            B[(seed + 3 * j) % n, j] = 1.0
+    elif rk == "zero_rows" and n >= 2:  # sparse load: a drawn half of the rows is exactly zero in every column
+        B[rng.permutation(n)[:max(1, n // 2)], :] = 0
+        if not np.all(np.linalg.norm(B, axis=0) > 0):
+            B[-1, :] = 1.0
     B = B / np.linalg.norm(B, axis=0) * (10.0 ** np.array(case["norm_exp"][:k], dtype=float))
     if case.get("zero_col"):
         B[:, -1] = 0
@@ -122,11 +133,19 @@ def build_precond(case, A):
     raise ValueError(kind)
 
 
+class InputMutated(Exception):
+    pass
+
+
 def run_cg(A, B, X0, P, tol, max_iters, x0_none=False):
     from cola.linalg.inverse.cg import cg
     op = KR.counting_operator(A, annotations=("PSD", ))
     kw = {} if P is None else {"P": P}
-    x, info = cg(op, B.copy(), x0=None if x0_none else X0.copy(), tol=tol, max_iters=max_iters, **kw)
+    Bc, Xc = B.copy(), X0.copy()
+    x, info = cg(op, Bc, x0=None if x0_none else Xc, tol=tol, max_iters=max_iters, **kw)
+    if not np.array_equal(Bc, B) or not np.array_equal(Xc, X0):
+        # the iterate is defined relative to the caller's x0 and b: they must still be what the caller passed
+        raise InputMutated("cg changed the caller's " + ("right-hand side" if not np.array_equal(Bc, B) else "initial guess"))
     return x, info, op
 
 
@@ -141,7 +160,7 @@ def check(case, out):
     n = case["n"]
     kappa = float(lam.max() / lam.min())
     out.label("sub:" + sub, "spec:" + case["spec"], "kappa:1e%g" % np.round(np.log10(max(kappa, 1)), 1), "P:" + case["P"],
-              "x0:" + case["x0"], "nrhs:%d" % case["nrhs"], "complex" if case["cplx"] else "real")
+              "x0:" + case["x0"], "nrhs:%d" % case["nrhs"], "complex" if case["cplx"] else "real", "rhs:" + case.get("rhs_kind", "dense"))
     P, Pd = build_precond(case, A)
     if case["P"] != "none" and P is None:
         out.label("P:skipped")
@@ -157,6 +176,9 @@ def check(case, out):
     def call(fn):
         try:
             return fn()
+        except InputMutated as e:
+            out.fail(sub, site, "input_mutated", e)
+            return None
         except Exception as e:
             out.fail(sub, site, oracle.exc_man(e), e)
             return None
